@@ -1,5 +1,8 @@
 // C20 trace recorder: random and structured rank-constraint systems solved by the real CspSolver under all four
 // value-preference orders.  usage: h_csp <seed> <count> <out>
+//   h_csp <seed> 0 <out> enum <L> <H> <stride> <offset>: instead of random systems, every stride-th system (starting at offset) of the
+//   complete family of MC_Csp.tla: two variables with lo, hi in L..H (lo > hi allowed: empty domain), parity none/even/odd, and no
+//   constraint, one constraint v_i <= v_j + c (i, j in {1,2}, c in -2..2) or that plus v_2 <= v_1 + d (d in -2..2)
 #include "cspsolver.hpp"
 #include "random.hpp"
 #include <fstream>
@@ -20,8 +23,13 @@ int main(int argc, char** argv) {
     Random rnd(seed, 0xC20);
     auto ri = [&](int lo, int hi) { return lo + rnd.nextInt(hi - lo + 1); };
     long sat = 0, unsat = 0;
+    const bool enumMode = argc > 8 && std::string(argv[4]) == "enum";
+    const int eL = enumMode ? atoi(argv[5]) : 0, eH = enumMode ? atoi(argv[6]) : 0;
+    const long eStride = enumMode ? atol(argv[7]) : 1, eOff = enumMode ? atol(argv[8]) : 0;
+    const long eR = eH - eL + 1, eV = eR * eR * 3, eTotal = eV * eV * 121;
+    if (enumMode) count = (eTotal - eOff + eStride - 1) / eStride;
     for (long n = 0; n < count; n++) {
-        int style = rnd.nextInt(10);
+        int style = enumMode ? 0 : rnd.nextInt(10);
         int nv = style < 2 ? ri(1, 3) : style < 7 ? ri(2, 6) : ri(5, 10);
         std::vector<Var> vars(nv);
         for (auto& v : vars) {
@@ -76,6 +84,24 @@ int main(int argc, char** argv) {
                 if (kind < 2) cons.push_back({i, 2, j, x[i] - x[j]});                 // equality
                 else if (kind == 2) cons.push_back({i, 0, j, x[i] - x[j] + ri(0, 1)});
                 else cons.push_back({i, 1, j, x[i] - x[j] - ri(0, 1)});
+            }
+        }
+        if (enumMode) {
+            long idx = eOff + n * eStride;
+            long ci = idx % 121; idx /= 121;
+            nv = 2;
+            vars.assign(2, Var());
+            for (int k = 0; k < 2; k++) {
+                long vi = idx % eV; idx /= eV;
+                vars[k].lo = eL + (int)(vi % eR); vi /= eR;
+                vars[k].hi = eL + (int)(vi % eR); vi /= eR;
+                vars[k].even = vi == 1; vars[k].odd = vi == 2;
+            }
+            cons.clear();
+            if (ci >= 1) {
+                long a = (ci - 1) % 20;               // first constraint: v_i <= v_j + c
+                cons.push_back({(int)(a / 10), 0, (int)((a / 5) % 2), (int)(a % 5) - 2});
+                if (ci >= 21) cons.push_back({1, 0, 0, (int)((ci - 21) / 20) - 2});
             }
         }
         std::string sys = "\"vars\":[";
